@@ -701,6 +701,26 @@ def rule_helper_loop(ctx, rep):
         F = FL[fl]
         h = ctx.fn(F.lib, "call_rcu_thread")
         wq.worker_rules(rep, "C03.helper", h, None, "call_rcu_data.flags", "call_rcu_data.futex", "call_rcu_data.cbs_head", "call_rcu_data.cbs_tail", "rcu_head.func", FLG.STOP, tag=fl + ".helper")
+        # RT polarity: a helper created with the RT flag polls and is never woken (call_rcu skips the wake-up for it), so only a non-RT helper
+        # may arm the futex and sleep on it
+        rtbits = set()
+        for b in h.blocks:
+            for s_ in b.succ:
+                for a in ir.edge_atoms(h, b.id, s_):
+                    if len(a) == 3 and a[0] in ("eq", "ne") and a[2] == ("c", 0) and a[1][0] == "bin" and a[1][1] == "and" and a[1][3][0] == "c" and pat.is_load_expr(a[1][2], "call_rcu_data.flags") and a[1][3][1] not in FLG.all:
+                        rtbits.add(a[1][3][1])
+        if len(rtbits) == 1:
+            RT = rtbits.pop()
+            sites = [w for w in waitloop.wait_sites(h)] + [e.inst for e in pat.accesses(h, "call_rcu_data.futex", ("rmw",))]
+            for i in sites:
+                lv = [a for a in pat.dom_leaf_atoms(h, i) if len(a) == 3 and a[2] == ("c", 0) and a[1][0] == "bin" and a[1][1] == "and" and a[1][3] == ("c", RT) and pat.is_load_expr(a[1][2], "call_rcu_data.flags")]
+                if not lv:
+                    rep.unk("C03.helper", "%s.helper.futex-only-if-not-RT@%d" % (fl, i.line), "the helper's use of its futex is not guarded by the RT flag in a form this rule recognises")
+                else:
+                    rep.check(all(a[0] == "eq" for a in lv), "C03.helper", "%s.helper.futex-only-if-not-RT@%d" % (fl, i.line), "the helper arms / sleeps on its futex only when it is not an RT helper",
+                              "the helper arms / sleeps on its futex exactly when it *is* an RT helper: call_rcu never wakes an RT helper, so it sleeps for ever with callbacks queued (and ordinary helpers busy-poll)", [i.where()])
+        else:
+            rep.unk("C03.helper", fl + ".helper.futex-only-if-not-RT", "RT flag bit not identified (%s)" % sorted(rtbits))
 
 
 META["explanation"] += " " + 'Also (rounds 10-11): publish => wake on every path of _call_rcu (RT flag excepted), callbacks run on a registered (qsbr: online) helper, a helper is freed without hand-over only along an observed-empty edge.'
